@@ -437,5 +437,5 @@ def hx(b):
 
 def driver_supports(driver, op):
     """Does the extracted-model driver know operation family `op`?"""
-    rc, out, err = run_lines(driver, [op + " ?"])
-    return bool(out) and out[0] != "UNSUPPORTED"
+    rc, out, err = run_lines(driver, ["HAS " + op])
+    return bool(out) and out[0] == "YES"
